@@ -360,17 +360,19 @@ def iso_extra(prop, tier, seed):
              ("auth", "auth", "genBefore"), ("auth", "auth", "genAfter"), ("auth", "token", "genBefore"), ("auth", "token", "genAfter"),
              ("auth", "rejected", "genBefore"), ("rejected", "auth", "genBefore"), ("rejected", "token", "genBefore")]
     for sp in spares:
-        ops = [dict(op="Schedule", a=a, b=b, gate=g, spare=sp) for (a, b, g) in pairs]
+        ops = [dict(op="Schedule", a=a, b=b, gate=g, spare=sp, lstate=False) for (a, b, g) in pairs]
         n += 1
         out.append(dict(id="sch_spare%d" % sp, ops=ops))
+    # the listener's own options carry a state VALUE shared by every handshake
+    out.append(dict(id="sch_lstate", ops=[dict(op="Schedule", a=a, b=b, gate=g, spare=sp, lstate=True) for sp in (0, 2) for (a, b, g) in pairs]))
     for r in range(3 if tier == "quick" else 40):
-        out.append(dict(id="mix_%d" % r, ops=[dict(op="Mix", spare=[0, 2, 8][r % 3], a="none", b="none", gate="none")]))
+        out.append(dict(id="mix_%d" % r, ops=[dict(op="Mix", spare=[0, 2, 8][r % 3], a="none", b="none", gate="none", lstate=(r % 2 == 1))]))
     return out
 
 
 def iso_post(prop, tier, seed, scr, coverage, known):
     """race detector on the free-running mixes"""
-    insts = [dict(id="race_%d" % r, ops=[dict(op="Mix", spare=[2, 8, 0][r % 3], a="none", b="none", gate="none")]) for r in range(4 if tier == "quick" else 60)]
+    insts = [dict(id="race_%d" % r, ops=[dict(op="Mix", spare=[2, 8, 0][r % 3], a="none", b="none", gate="none", lstate=(r % 2 == 0))]) for r in range(4 if tier == "quick" else 60)]
     exe = build_harness(scr, race=True)
     inp, outp = scr.path("iso_race.ndjson"), scr.path("iso_race_out.ndjson")
     write_ndjson(inp, insts)
